@@ -2,7 +2,7 @@
 """(Re)generates /verif/mutants/*.patch from small source edits against /repo HEAD. Each mutant compiles and breaks one property.
 usage: tools/mkmutants.py [name-prefix]"""
 import subprocess, sys, os
-REPO = "/repo"
+REPO = os.environ.get("ZK_REPO", "/repo")
 OUT = "/verif/mutants"
 M = []
 
@@ -36,6 +36,18 @@ m("C20-tres-operands-swapped", GR, "op.eval_fr(values[a], values[b], values[c])"
 m("C20-const-be-writer", STO, "value_le: bi.to_bytes_le(),", "value_le: bi.to_bytes_be(),", "C20")
 m("C20-populate-len-guard-weakened", CALC, "        if len != value.len() {", "        if len < value.len() {", "C20")
 m("C20-uno-id-dec", STO, "            proto::UnoOp::Id => UnoOperation::Id,", "            proto::UnoOp::Id => UnoOperation::Neg,", "C20")
+
+# ---- C19
+m("C19-bor-gt", GR, "    if d >= Fr::MODULUS {\n        d.sub_with_borrow(&Fr::MODULUS);\n    }\n\n    Fr::from_bigint(d).unwrap()\n}\n\nfn bit_xor", "    if d > Fr::MODULUS {\n        d.sub_with_borrow(&Fr::MODULUS);\n    }\n\n    Fr::from_bigint(d).unwrap()\n}\n\nfn bit_xor", "C19")
+m("C19-ult-table", GR, "        (false, false) => U256::from(a < b),\n        (true, false) => uint!(1_U256),\n        (false, true) => uint!(0_U256),", "        (false, false) => U256::from(a < b),\n        (true, false) => uint!(0_U256),\n        (false, true) => uint!(1_U256),", "C19")
+m("C19-ugt-plain", GR, "        (true, true) => U256::from(a > b),", "        (true, true) => U256::from(a >= b),", "C19")
+m("C19-mod-unguarded", GR, "            Mod => {\n                if b.is_zero() {\n                    Fr::zero()\n                } else {\n                    let a_u256 = fr_to_u256(&a);\n                    let b_u256 = fr_to_u256(&b);\n                    u256_to_fr(&(a_u256 % b_u256))\n                }\n            }", "            Mod => {\n                let a_u256 = fr_to_u256(&a);\n                let b_u256 = fr_to_u256(&b);\n                u256_to_fr(&(a_u256 % b_u256))\n            }", "C19")
+m("C19-mont-accepts-pow", GR, "                | Shl | Shr | Bor | Band | Bxor,\n                ..,\n            ) => (),\n            Op(op @ Pow, ..) => unimplemented!(\"Operators Montgomery form: {:?}\", op),", "                | Shl | Shr | Bor | Band | Bxor | Pow,\n                ..,\n            ) => (),", "C19")
+m("C19-halfm", GR, "uint!(10944121435919637611123202872628637544274182200208017171849102093287904247808_U256);", "uint!(10944121435919637611123202872628637544274182200208017171849102093287904247809_U256);", "C19")
+m("C19-shl-no-mask", GR, "    a.0[3] &= (1u64 << 62) - 1;\n", "", "C19")
+m("C19-shr-guard-1000", GR, "    match b.cmp(&Fr::from(254u64)) {", "    match b.cmp(&Fr::from(1000u64)) {", "C19")
+m("C19-benign-shr-guard-256", GR, "    match b.cmp(&Fr::from(254u64)) {", "    match b.cmp(&Fr::from(256u64)) {", "C19")
+m("C19-neg-unguarded", GR, "                if a.is_zero() {\n                    Fr::zero()\n                } else {\n                    let mut x = Fr::MODULUS;\n                    x.sub_with_borrow(&a.into_bigint());\n                    Fr::from_bigint(x).unwrap()\n                }", "                let mut x = Fr::MODULUS;\n                x.sub_with_borrow(&a.into_bigint());\n                Fr::from_bigint(x).unwrap()", "C19")
 
 
 def main():
